@@ -2052,6 +2052,9 @@ func specNoPdr(s *PFCPSession, id uint32) bool {
 //@ func (s *PFCPSession) CreatePDR(p pdr)
 //@   requires s != nil
 //@   ensures C03.crpdr: len(s.pdrs) == old[int](len(s.pdrs))+1 && same(at(s.pdrs, hi(s.pdrs)-1), p) && (forall i int :: 0 <= i && i < old[int](len(s.pdrs)) ==> same(at(s.pdrs, lo(s.pdrs)+i), old[pdr](at(s.pdrs, lo(s.pdrs)+i))))
+//@   ensures C03.crpdr.others: forall r int :: r != refOf(s) ==> same(*ptrAt[PFCPSession](r), old[PFCPSession](*ptrAt[PFCPSession](r)))
+//@   ensures C03.crpdr.array: sameArray(s.pdrs, old[[]pdr](s.pdrs)) || !allocated(s.pdrs)
+//@   ensures C03.crpdr.frame: forall r int, a int :: r != old[int](sliceRef(s.pdrs)) && old[bool](live(r)) ==> same(elemAt[pdr](r, a), old[pdr](elemAt[pdr](r, a)))
 
 func specFirstFarAt(s *PFCPSession, j int, id uint32) bool {
 	return lo(s.fars) <= j && j < hi(s.fars) && at(s.fars, j).farID == id &&
@@ -2075,6 +2078,9 @@ func specNoFar(s *PFCPSession, id uint32) bool {
 //@ func (s *PFCPSession) CreateFAR(f far)
 //@   requires s != nil
 //@   ensures C03.crfar: len(s.fars) == old[int](len(s.fars))+1 && same(at(s.fars, hi(s.fars)-1), f) && (forall i int :: 0 <= i && i < old[int](len(s.fars)) ==> same(at(s.fars, lo(s.fars)+i), old[far](at(s.fars, lo(s.fars)+i))))
+//@   ensures C03.crfar.others: forall r int :: r != refOf(s) ==> same(*ptrAt[PFCPSession](r), old[PFCPSession](*ptrAt[PFCPSession](r)))
+//@   ensures C03.crfar.array: sameArray(s.fars, old[[]far](s.fars)) || !allocated(s.fars)
+//@   ensures C03.crfar.frame: forall r int, a int :: r != old[int](sliceRef(s.fars)) && old[bool](live(r)) ==> same(elemAt[far](r, a), old[far](elemAt[far](r, a)))
 
 func specFirstQerAt(s *PFCPSession, j int, id uint32) bool {
 	return lo(s.qers) <= j && j < hi(s.qers) && at(s.qers, j).qerID == id &&
@@ -2106,6 +2112,9 @@ func specNoQer(s *PFCPSession, id uint32) bool {
 //@ func (s *PFCPSession) CreateQER(q qer)
 //@   requires s != nil
 //@   ensures C03.crqer: len(s.qers) == old[int](len(s.qers))+1 && same(at(s.qers, hi(s.qers)-1), q) && (forall i int :: 0 <= i && i < old[int](len(s.qers)) ==> same(at(s.qers, lo(s.qers)+i), old[qer](at(s.qers, lo(s.qers)+i))))
+//@   ensures C03.crqer.others: forall r int :: r != refOf(s) ==> same(*ptrAt[PFCPSession](r), old[PFCPSession](*ptrAt[PFCPSession](r)))
+//@   ensures C03.crqer.array: sameArray(s.qers, old[[]qer](s.qers)) || !allocated(s.qers)
+//@   ensures C03.crqer.frame: forall r int, a int :: r != old[int](sliceRef(s.qers)) && old[bool](live(r)) ==> same(elemAt[qer](r, a), old[qer](elemAt[qer](r, a)))
 
 // ---------------------------------------------------------------------------
 // C03: BESS encoders - what is written for a rule, and that delete names what add installed
@@ -2501,7 +2510,7 @@ func specHasAllocPdr(s PFCPSession) bool {
 
 func specPoolReady(pConn *PFCPConn) bool {
 	return implies(pConn.upf.ippool != nil, poolInv(pConn.upf.ippool) && !held(&pConn.upf.ippool.mu)) &&
-		implies(pConn.upf.fteidGenerator != nil, !held(&pConn.upf.fteidGenerator.lock))
+		implies(pConn.upf.fteidGenerator != nil, !held(&pConn.upf.fteidGenerator.lock) && pConn.upf.fteidGenerator.usedMap != nil && pConn.upf.fteidGenerator.offset < 0xFFFFFFFF)
 }
 
 // Shutdown (C05): every session of the association is deleted from the datapath, gives its UE
@@ -2553,12 +2562,38 @@ func specEstResp(reply message.Message) *message.SessionEstablishmentResponse {
 	return ptrAt[message.SessionEstablishmentResponse](dynRef(reply))
 }
 
+// specEstReqWF: the IE lists of a parsed request hold no nil element (go-pfcp's parser appends the
+// IEs it decoded).
+func specEstReqWF(msg message.Message) bool {
+	return implies(typeIs[*message.SessionEstablishmentRequest](msg),
+		implies(specEstReq(msg).NodeID != nil, specEstReq(msg).NodeID.Type == ie.NodeID) &&
+			implies(specEstReq(msg).CPFSEID != nil, specEstReq(msg).CPFSEID.Type == ie.FSEID) &&
+			forall(func(a int) bool {
+			return implies(lo(specEstReq(msg).CreatePDR) <= a && a < hi(specEstReq(msg).CreatePDR), at(specEstReq(msg).CreatePDR, a) != nil)
+		}) && forall(func(a int) bool {
+			return implies(lo(specEstReq(msg).CreateFAR) <= a && a < hi(specEstReq(msg).CreateFAR), at(specEstReq(msg).CreateFAR, a) != nil)
+		}) && forall(func(a int) bool {
+			return implies(lo(specEstReq(msg).CreateQER) <= a && a < hi(specEstReq(msg).CreateQER), at(specEstReq(msg).CreateQER, a) != nil)
+		}))
+}
+
+func specHandlerEnv(pConn *PFCPConn) bool {
+	return sessionEnv(pConn) && specPoolReady(pConn) && pConn.rng != nil && pfdInv(pConn.appPFDs) && pConn.upf.fteidGenerator != nil
+}
+
 //@ func (pConn *PFCPConn) handleSessionEstablishmentRequest(msg message.Message) (reply message.Message, err error)
-//@   requires sessionEnv(pConn) && specPoolReady(pConn) && msgWF(msg)
+//@   requires specHandlerEnv(pConn) && msgWF(msg) && specEstReqWF(msg)
 //@   ensures C02.est.wrongtype: !typeIs[*message.SessionEstablishmentRequest](msg) ==> reply == nil && err != nil
 //@   ensures C02.est.reply: typeIs[*message.SessionEstablishmentRequest](msg) ==> typeIs[*message.SessionEstablishmentResponse](reply) && dynRef(reply) != 0 && specEstResp(reply).Header != nil && specEstResp(reply).Header.SequenceNumber == specEstReq(msg).Header.SequenceNumber && specEstResp(reply).Cause != nil
 //@   ensures C02.est.rejected: typeIs[*message.SessionEstablishmentRequest](msg) && err != nil ==> specIEu8(specEstResp(reply).Cause) != ie.CauseRequestAccepted
 //@   ensures C02.est.accepted: typeIs[*message.SessionEstablishmentRequest](msg) && err == nil ==> specIEu8(specEstResp(reply).Cause) == ie.CauseRequestAccepted && specEstResp(reply).NodeID == pConn.nodeID.localIE && specEstResp(reply).UPFSEID != nil
+//@   ensures C03.est.one: glen("dp") <= old[int](glen("dp"))+1 && (err == nil ==> glen("dp") == old[int](glen("dp"))+1 && gfield("dp.method", gentry("dp", old[int](glen("dp")))) == uint64(upfMsgTypeAdd))
+//@   loop 1 invariant C02.est.l1.store: forall k uint64 :: (specHasSession(pConn, k) <==> old[bool](specHasSession(pConn, k))) && (specHasSession(pConn, k) ==> same(specSession(pConn, k), old[PFCPSession](specSession(pConn, k))))
+//@   loop 1 invariant C01.est.l1: specHandlerEnv(pConn) && session.metrics != nil && glen("dp") == old[int](glen("dp")) && !allocated(session.pdrs) && !allocated(session.fars) && !allocated(session.qers) && !allocated(addPDRs) && !allocated(addFARs) && !allocated(addQERs)
+//@   loop 2 invariant C02.est.l2.store: forall k uint64 :: (specHasSession(pConn, k) <==> old[bool](specHasSession(pConn, k))) && (specHasSession(pConn, k) ==> same(specSession(pConn, k), old[PFCPSession](specSession(pConn, k))))
+//@   loop 2 invariant C01.est.l2: specHandlerEnv(pConn) && session.metrics != nil && glen("dp") == old[int](glen("dp")) && !allocated(session.pdrs) && !allocated(session.fars) && !allocated(session.qers) && !allocated(addPDRs) && !allocated(addFARs) && !allocated(addQERs)
+//@   loop 3 invariant C02.est.l3.store: forall k uint64 :: (specHasSession(pConn, k) <==> old[bool](specHasSession(pConn, k))) && (specHasSession(pConn, k) ==> same(specSession(pConn, k), old[PFCPSession](specSession(pConn, k))))
+//@   loop 3 invariant C01.est.l3: specHandlerEnv(pConn) && session.metrics != nil && glen("dp") == old[int](glen("dp")) && !allocated(session.pdrs) && !allocated(session.fars) && !allocated(session.qers) && !allocated(addPDRs) && !allocated(addFARs) && !allocated(addQERs)
 
 // ---- C01: parsing of the rule IEs never crashes (whatever the IEs contain) ----
 
@@ -2606,7 +2641,7 @@ func specPoolArg(ippool *IPPool) bool {
 // stored yet. (The retry loop gives up after maxRetries collisions.)
 //@ func (pConn *PFCPConn) NewPFCPSession(rseid uint64) (s PFCPSession, ok bool)
 //@   requires sessionEnv(pConn) && pConn.rng != nil
-//@   ensures C07.newsess.fresh: ok ==> !specHasSession(pConn, s.localSEID) && s.remoteSEID == rseid && s.metrics != nil && len(s.pdrs) == 0 && len(s.fars) == 0 && len(s.qers) == 0
+//@   ensures C07.newsess.fresh: ok ==> !specHasSession(pConn, s.localSEID) && s.remoteSEID == rseid && s.metrics != nil && len(s.pdrs) == 0 && len(s.fars) == 0 && len(s.qers) == 0 && !allocated(s.pdrs) && !allocated(s.fars) && !allocated(s.qers)
 //@   ensures C05.newsess.gauge: (ok ==> glen("gauge") == old[int](glen("gauge"))+1 && gfield("gauge.session", gentry("gauge", old[int](glen("gauge")))) == uint64(refOf(s.metrics))) && (!ok ==> glen("gauge") == old[int](glen("gauge")))
 //@   ensures C02.newsess.store: forall k uint64 :: (specHasSession(pConn, k) <==> old[bool](specHasSession(pConn, k))) && (specHasSession(pConn, k) ==> same(specSession(pConn, k), old[PFCPSession](specSession(pConn, k))))
 //@   ensures sessionEnv(pConn)
@@ -2617,3 +2652,9 @@ func specPoolArg(ippool *IPPool) bool {
 //@   ensures C02.put.zero: (err != nil) <==> session.localSEID == 0
 //@   ensures C02.put.stored: err == nil ==> smHas(&i.sessions, session.localSEID) && smIs(&i.sessions, session.localSEID, PFCPSession{}) && same(smGet(&i.sessions, session.localSEID, PFCPSession{}), session)
 //@   ensures C02.put.others: forall k uint64 :: err != nil || k != session.localSEID ==> (smHas(&i.sessions, k) <==> old[bool](smHas(&i.sessions, k))) && (smIs(&i.sessions, k, PFCPSession{}) <==> old[bool](smIs(&i.sessions, k, PFCPSession{}))) && (smHas(&i.sessions, k) && smIs(&i.sessions, k, PFCPSession{}) ==> same(smGet(&i.sessions, k, PFCPSession{}), old[PFCPSession](smGet(&i.sessions, k, PFCPSession{}))))
+
+//@ func addPdrInfo(msg *message.SessionEstablishmentResponse, pdrs []pdr)
+//@   requires msg != nil
+//@   freshwrites ie.IE, E:uint8
+//@   ensures C02.pdrinfo.keep: msg.Header == old[*message.Header](msg.Header) && msg.Cause == old[*ie.IE](msg.Cause) && msg.NodeID == old[*ie.IE](msg.NodeID) && msg.UPFSEID == old[*ie.IE](msg.UPFSEID)
+//@   loop 1 invariant C02.pdrinfo.l1: msg.Header == old[*message.Header](msg.Header) && msg.Cause == old[*ie.IE](msg.Cause) && msg.NodeID == old[*ie.IE](msg.NodeID) && msg.UPFSEID == old[*ie.IE](msg.UPFSEID)
